@@ -7,7 +7,7 @@ use super::sendbody::{send_body_call, send_body_flow};
 use crate::engine::{guarded, pattern, Report, Tier, Violation};
 use crate::refmodel::chunked::decode_strict;
 
-pub const RULE: &str = "chunked: every output length b in 6..=11000 and +-12 around k*10248 (k<=3) x input lengths {1..=64 (thorough 1..=320), 100, 255..257, 1000, 4095..4097, 10239..10241, 20480, 20481, 30000} u {b-6..=b+2}, each pair one real write on a fresh writer (front ends: Flow of a POST, Call, Flow of a DELETE with send-body-despite-method); the same rows for b in 6..=64 u {100,1000,4103,10248,10253} from non-initial states: after an earlier write of {1,3} bytes into a buffer of 0..=12 bytes in the same state, and after two superfluous head writes (buffers {0,4,5,6,4096}) in the state before, for an HTTP/1.0 GET converted with send-body-despite-method, after an Expect handshake whose look returned an error, and for a request with two Transfer-Encoding lines next to a Content-Length; sized: b,i in 1..=300 (a reduced buffer set also after a refused oversize direct-write report and after a refused oversize write), plus fixed-buffer loops with Content-Length around 2^32, 2^33, 2^40, u64::MAX; plus whole-body caller loops with a fixed buffer. distinct = distinct (mode, consumed==input, chunks emitted, hex digits) classes";
+pub const RULE: &str = "chunked: every output length b in 6..=11000 and +-12 around k*10248 (k<=3) x input lengths {1..=64 (thorough 1..=320), 100, 255..257, 1000, 4095..4097, 10239..10241, 20480, 20481, 30000} u {b-6..=b+2}, each pair one real write on a fresh writer (front ends: Flow of a POST, Call, Flow of a DELETE with send-body-despite-method); the same rows for b in 6..=64 u {100,1000,4103,10248,10253} from non-initial states: after an earlier write of {1,3} bytes into a buffer of 0..=12 bytes in the same state, and after two superfluous head writes (buffers {0,4,5,6,4096}) in the state before, for an HTTP/1.0 GET converted with send-body-despite-method, after an Expect handshake whose look returned an error, and for a request with two Transfer-Encoding lines next to a Content-Length; sized: b,i in 1..=300 (a reduced buffer set also after a refused oversize direct-write report, after a refused oversize write, and on a flow obtained through a redirect whose original declared a smaller length), plus fixed-buffer loops with Content-Length around 2^32, 2^33, 2^40, u64::MAX; plus whole-body caller loops with a fixed buffer. distinct = distinct (mode, consumed==input, chunks emitted, hex digits) classes";
 
 fn bs() -> Vec<usize> {
     let mut v: Vec<usize> = (6..=11000).collect();
@@ -213,7 +213,7 @@ fn sized_pair(i: usize, b: usize, input: &[u8]) -> Option<(String, String)> {
 /// "refused-write": an oversize write() was refused before (a refusal must leave the budget alone).
 fn sized_pair_after(i: usize, b: usize, input: &[u8], prior: &str) -> Option<(String, String)> {
     let r = guarded(|| {
-        let mut f = send_body_flow(Some(1000));
+        let mut f = if prior == "redirected" { super::sendbody::send_body_flow_redirected_len(1000) } else { send_body_flow(Some(1000)) };
         match prior {
             "refused-direct" => {
                 if f.consume_direct_write(2000).is_ok() {
@@ -356,7 +356,7 @@ pub fn run(tier: Tier) -> Report {
                     });
                 }
                 if b <= 40 || b % 37 == 0 {
-                    for prior in ["refused-direct", "refused-write"] {
+                    for prior in ["refused-direct", "refused-write", "redirected"] {
                         rep.evaluations += 1;
                         if let Some((k, what)) = sized_pair_after(i, b, &input, prior) {
                             rep.violation(Violation { key: format!("C19:sized:{}:after-{}", k, prior), ord: (b * 1000 + i) as u64, what: format!("{} [after a {} in the same state]", what, prior), replay: json!({"kind": "sized", "i": i, "b": b, "prior": prior}) });
